@@ -173,4 +173,86 @@ pub mod spec_validation {
         apex_bad_rdata(z, c)
         || exists|n: NameK| #[trigger] z.nodes.contains_key(n) && node_bad_rdata(z, c, n, z.nodes[n])
     }
+
+    // ------------------------------------------------------------------
+    // Sanity of the reference: the narrow-policy clause against the wording of `GluePolicy`
+    // ------------------------------------------------------------------
+
+    /// `t` at or below `o` has the same ancestors as `o` up to `o`'s depth.
+    pub proof fn lemma_anc_below(t: NameK, o: NameK, j: int)
+        requires at_or_below(t, o), 0 <= j <= o.len(),
+        ensures anc(t, j) == anc(o, j),
+    {
+        let k = t.len() - o.len();
+        assert(t.skip(k) == o);
+        assert(t.skip(k).skip(o.len() - j) =~= t.skip(t.len() - j));
+    }
+
+    /// "The narrow glue policy: glue is required if and only if the nameserver is in the child
+    /// zone (specified by the owner of the NS record)."  For a delegation `o` that is a real
+    /// zone cut of `z` (not itself beneath another cut), the reference clause
+    /// `glue_required(z, Narrow, o, t)` says exactly that: `t` is at or below `o`.
+    pub proof fn lemma_narrow_policy_reading(z: ZoneV, o: NameK, t: NameK)
+        requires
+            zone_wf(z),
+            at_or_below(t, z.apex),
+            resolve(z, o, false) == (Resolution::Referral { cut: o }),
+        ensures
+            glue_required(z, PolicyV::Narrow, o, t) <==> at_or_below(t, o),
+    {
+        // the delegation point of `o` is `o` itself, at depth o.len()
+        assert(at_or_below(o, z.apex) && has_cut(z, o));
+        let jo = choose|j: int| topmost_cut_at(z, o, j);
+        assert(exists|j: int| topmost_cut_at(z, o, j)) by { lemma_topmost_exists(z, o); }
+        assert(anc(o, jo) == o);
+        assert(jo == o.len()) by {
+            assert(anc(o, jo).len() == jo);
+        }
+        if at_or_below(t, o) {
+            lemma_anc_below(t, o, o.len() as int);
+            assert(o.skip(0) =~= o);
+            assert(anc(t, o.len() as int) == o);
+            assert(cut_at(z, t, o.len() as int));
+            lemma_topmost_exists(z, t);
+            let jt = choose|j: int| topmost_cut_at(z, t, j);
+            assert(jt <= o.len());
+            if jt < o.len() {
+                lemma_anc_below(t, o, jt);
+                assert(cut_at(z, o, jt));
+                assert(false);
+            }
+            assert(anc(t, jt) == o);
+        }
+        if glue_required(z, PolicyV::Narrow, o, t) {
+            let jt = choose|j: int| topmost_cut_at(z, t, j);
+            assert(has_cut(z, t));
+            lemma_topmost_exists(z, t);
+            assert(anc(t, jt) == o);
+            assert(anc(t, jt).len() == jt);
+            assert(at_or_below(t, o));
+        }
+    }
+
+    /// A name with a cut on its path has a topmost one (well-ordering of the depths).
+    pub proof fn lemma_topmost_exists(z: ZoneV, n: NameK)
+        requires has_cut(z, n),
+        ensures exists|j: int| topmost_cut_at(z, n, j),
+    {
+        let j0 = choose|j: int| cut_at(z, n, j);
+        lemma_topmost_from(z, n, j0);
+    }
+
+    pub proof fn lemma_topmost_from(z: ZoneV, n: NameK, j: int)
+        requires cut_at(z, n, j),
+        ensures exists|k: int| topmost_cut_at(z, n, k),
+        decreases j
+    {
+        if exists|i: int| i < j && cut_at(z, n, i) {
+            let i = choose|i: int| i < j && cut_at(z, n, i);
+            assert(i > z.apex.len() >= 0);
+            lemma_topmost_from(z, n, i);
+        } else {
+            assert(topmost_cut_at(z, n, j));
+        }
+    }
 }
